@@ -533,18 +533,28 @@ func (f *followingQuery) Select(t iterator) NodeNavigator {
 				}
 			} else {
 				var q *descendantQuery // descendant query
+				// the content of an element follows its attributes in document order.
+				fromAttr := node.NodeType() == AttributeNode
 				f.iterator = func() NodeNavigator {
 					for {
 						if q == nil {
-							for !node.MoveToNext() {
-								if !node.MoveToParent() {
-									return nil
+							if fromAttr && node.MoveToParent() {
+								fromAttr = false
+								q = &descendantQuery{
+									Input:     &contextQuery{},
+									Predicate: f.Predicate,
 								}
-							}
-							q = &descendantQuery{
-								Self:      true,
-								Input:     &contextQuery{},
-								Predicate: f.Predicate,
+							} else {
+								for !node.MoveToNext() {
+									if !node.MoveToParent() {
+										return nil
+									}
+								}
+								q = &descendantQuery{
+									Self:      true,
+									Input:     &contextQuery{},
+									Predicate: f.Predicate,
+								}
 							}
 							t.Current().MoveTo(node)
 						}
